@@ -320,6 +320,56 @@ def gen_std(ctx, cases):
     for h in hosts:
         for p in ["80", "", "x:y"]:
             std.append({"op": "join", "a": hx(h), "b": hx(p), "cidr": ""})
+    # textual forms of addresses: netip.ParseAddr / net.ParseIP / IP.String against the concrete Gallina functions
+    lits = ["", "1.2.3.4", "0.0.0.0", "255.255.255.255", "256.1.1.1", "1.2.3", "1.2.3.4.5", "01.2.3.4", "1.2.3.04", "1.2.3.4.",
+            ".1.2.3.4", "1..2.3", "1.2.3.4x", "1.2.3.-4", "0x1.2.3.4", "1.2.3.4%eth0", "00.0.0.0", "1.2.3.0", "1.2.3.00", "1.2.3.256",
+            "1.2.3.1000", "999999999999999999999.1.1.1", "1.2.3.4\x00", "\x001.2.3.4", "1.2. 3.4",
+            "::", "::1", "1::", "::1:2", "1:2::", "1::2", "1:2:3:4:5:6:7:8", "1:2:3:4:5:6:7::", "::2:3:4:5:6:7:8", "1:2:3:4:5:6:7:8:9",
+            "1:2:3:4:5:6:7", "1::2::3", ":1:2:3:4:5:6:7:8", "1:2:3:4:5:6:7:8:", ":::", "::::", ":", "1:", ":1", "12345::", "1234::",
+            "fFfF::Ab", "g::", "::g", "::ffff:1.2.3.4", "::FFFF:1.2.3.4", "::ffff:102:304", "0:0:0:0:0:ffff:1.2.3.4", "::1.2.3.4",
+            "64:ff9b::1.2.3.4", "1:2:3:4:5:6:1.2.3.4", "1:2:3:4:5:6:7:1.2.3.4", "1:2:3:4:5:1.2.3.4", "1:2:3:4:5:6:7:8:1.2.3.4",
+            "::ffff:1.2.3", "::ffff:1.2.3.4.5", "::ffff:01.2.3.4", "::ffff:256.2.3.4", "::1.2.3.4:5", "1.2.3.4::", "::ffff:1.2.3.4%z",
+            "::1%lo", "::1%", "%lo", "::1%lo%x", "fe80::1%eth0", "fe80::1%25eth0", "fe80::1%[x]", "[::1]", "[::1%lo]", "::1\x00",
+            "::\x001", "0::0", "0:0::0:0", "::0:0:1", "1:0:0:2:0:0:0:3", "1:0:0:0:2:0:0:3", "0:0:1:0:0:1:0:0", "1:0:2:0:3:0:4:0",
+            "2001:db8::", "2001:0db8:0000:0000:0000:0000:0000:0001", "2001:db8:0:0:1:0:0:1", "ffff:ffff:ffff:ffff:ffff:ffff:ffff:ffff",
+            "10000::", "::10000", "1:2:3:4:5:6:7:88888", "a:b:c:d:e:f:0:1", "::ffff:0:1.2.3.4", "::fffe:1.2.3.4", "1::1.2.3.4",
+            "1:2:3:4:5:6::1.2.3.4", "1:2:3:4:5::1.2.3.4", "::1.2.3.4%eth1", "1.2.3.4:80", "[::1]:80", "::1:80"]
+    lits = [x.encode("latin1").decode("unicode_escape") for x in lits]
+    for _ in range(150 if quick else 2500):
+        r = rng.random()
+        if r < 0.3:
+            a = ipaddress.IPv6Address(rng.getrandbits(128) & rng.getrandbits(128) & (rng.getrandbits(128) | rng.getrandbits(128)))
+            t = rng.choice([a.compressed, a.exploded, a.compressed.upper()])
+        elif r < 0.45:
+            t = str(ipaddress.IPv4Address(rng.getrandbits(32)))
+        elif r < 0.55:
+            t = "::ffff:" + str(ipaddress.IPv4Address(rng.getrandbits(32)))
+        else:
+            # random walk over the address alphabet, group-structured
+            n = rng.randrange(1, 10)
+            parts = ["".join(rng.choice("0123456789abcdefAF") for _ in range(rng.choice([0, 1, 1, 2, 3, 4, 4, 5]))) for _ in range(n)]
+            t = rng.choice([":", "."]).join(parts) if rng.random() < 0.3 else ":".join(parts)
+            if rng.random() < 0.3:
+                k = rng.randrange(len(t) + 1)
+                t = t[:k] + rng.choice(["::", ":", ".", "%", "%e", "1.2.3.4", "0"]) + t[k:]
+        if rng.random() < 0.1:
+            t += rng.choice(["%eth0", "%", "%1", "%a%b"])
+        lits.append(t)
+    for t in lits:
+        std.append({"op": "parseaddr", "a": hx(t.encode("latin1") if all(ord(ch) < 256 for ch in t) else t), "b": "", "cidr": ""})
+    rawips = [b"", bytes(4), bytes(16), bytes([1, 2, 3, 4]), bytes(10) + b"\xff\xff" + bytes([1, 2, 3, 4]), bytes(5), bytes(3), bytes(17),
+              bytes([255] * 16), bytes([0] * 15 + [1]), bytes.fromhex("20010db8000000000001000000000001"),
+              bytes.fromhex("00010000000000020000000000000003"), bytes.fromhex("00010000000000000002000000000003"),
+              bytes.fromhex("00000000000100000000000100000000"), bytes.fromhex("0001000000020000000300000004" + "0000"),
+              bytes.fromhex("fe800000000000000000000000000001"), bytes.fromhex("0000000000000000000000000a000001"),
+              bytes.fromhex("00000000000000000000fffe01020304"), bytes.fromhex("0abc00de0f000001000000000000abcd")]
+    for _ in range(100 if quick else 2000):
+        if rng.random() < 0.4:
+            rawips.append(rng.getrandbits(32).to_bytes(4, "big"))
+        else:
+            rawips.append((rng.getrandbits(128) & rng.getrandbits(128) & rng.getrandbits(128)).to_bytes(16, "big"))
+    for b in rawips:
+        std.append({"op": "ipstr", "a": b.hex(), "b": "", "cidr": ""})
     raws = [b"", bytes(4), bytes(16), bytes([127, 0, 0, 1]), bytes(10) + b"\xff\xff" + bytes([10, 0, 0, 1]),
             bytes(5), bytes(15), bytes(17), bytes(10) + b"\xff\xfe" + bytes([10, 0, 0, 1])]
     cidrs = ["10.0.0.0/8", "0.0.0.0/0", "::/0", "::ffff:10.0.0.0/104", "::ffff:0:0/96", "::ffff:0:0/90", "::/96",
@@ -591,13 +641,20 @@ def run(ctx):
     if sres is None or len(sres) != len(std):
         ctx.broken("driver", "Go std driver did not produce results: %s" % out[-800:])
         return
-    groups = {"port": [], "join": [], "contains": []}
+    groups = {"port": [], "join": [], "contains": [], "parseaddr": [], "ipstr": []}
     for c, r in zip(std, sres):
         ctx.count(("std", c["op"], c["a"], c["b"], c["cidr"]), nontrivial=True, kind="std/" + c["op"])
         if c["op"] == "port":
             groups["port"].append(("(%s, %s)" % (g_bytes_hex(c["a"]), gbool(r["ok"])), c))
         elif c["op"] == "join":
             groups["join"].append(("(%s, %s, %s)" % (g_bytes_hex(c["a"]), g_bytes_hex(c["b"]), g_bytes_hex(r["x"])), c))
+        elif c["op"] == "parseaddr":
+            pa = "(Some (%s, %s))" % (g_bytes_hex(r["x"]), g_bytes_hex(r["y"])) if r["ok"] else "None"
+            pip = "(Some %s)" % g_bytes_hex(r["net"]["ip"]) if r["net"]["mask"] == "01" else "None"
+            groups["parseaddr"].append(("(%s, %s, %s)" % (g_bytes_hex(c["a"]), pa, pip), c))
+            ctx.cov["histogram"]["parseaddr/" + ("ok" if r["ok"] else "err")] = ctx.cov["histogram"].get("parseaddr/" + ("ok" if r["ok"] else "err"), 0) + 1
+        elif c["op"] == "ipstr":
+            groups["ipstr"].append(("(%s, %s)" % (g_bytes_hex(c["a"]), g_bytes_hex(r["x"])), c))
         elif c["op"] == "contains" and r["x"]:
             groups["contains"].append(("(%s, %s, %s)" % (g_net(r["net"]), g_bytes_hex(c["a"]), gbool(r["ok"])), c))
     for op, lst in groups.items():
